@@ -46,6 +46,7 @@ struct RunResult {
   uint64_t obs_hash = 0;    // observations only: what the callers could see (return values, offsets, bytes, counts, rax, outputs)
   std::vector<uint64_t> task_hashes;  // per caller task: hash of everything that caller observed
   std::vector<long> task_steps;       // fine mode: yield points passed by each task
+  std::vector<std::vector<long>> op_starts;  // fine mode: per task, the yield-point count at which each operation began
   RunStats st;
   bool nontrivial = false;
   std::vector<std::vector<CallRec>> traces;  // per op (flattened in execution order), when requested
